@@ -62,6 +62,7 @@ class Monitor:
         self.steps_in = []       # (sid, tt, inputs, event index) judged in finish()
         self.n_begun = 0
         self.async_pending = collections.defaultdict(dict)   # dst sid -> {(attr, src_full): val}
+        self.repeat = collections.defaultdict(dict)          # sid -> {tt: repeated steps owed}
         self.async_optional = collections.defaultdict(dict)  # ... of refused multi-destination calls
         self.async_sent = {}                                 # value -> time of the sender's step
         self.async_delivered = set()
@@ -100,7 +101,14 @@ class Monitor:
             # an external event accepted by mosaik (set_event in real-time mode): a demand
             _, sid, t, outcome = ev
             if outcome == "ok" and isinstance(t, int) and 0 <= t < self.until:
-                self.D[sid].setdefault((t,) + zero(self.T.depth(sid) - 1), set()).add("ext")
+                tt = (t,) + zero(self.T.depth(sid) - 1)
+                if tt in self.Xset[sid]:
+                    # the simulator has already begun (or finished) its step for that tick and
+                    # the tick is still ahead on the wall clock: the event asks for ANOTHER step
+                    # at the same time (the simulator must get to see the new external input)
+                    self.repeat[sid][tt] = self.repeat[sid].get(tt, 0) + 1
+                else:
+                    self.D[sid].setdefault(tt, set()).add("ext")
 
     # ------------------------------------------------------------------------
     def on_begin(self, ev):
@@ -109,6 +117,14 @@ class Monitor:
         T, until, D, X = self.T, self.until, self.D, self.X
         conns = T.conns
         pend = self.pending(sid)
+        t0 = (t,) + zero(T.depth(sid) - 1)
+        if self.repeat[sid].get(t0) and X[sid] and X[sid][-1] == t0 and sid not in self.cur:
+            # the repeated step that an external event for the running tick has asked for
+            self.repeat[sid][t0] -= 1
+            self.begun[sid] = t0
+            self.cur[sid] = (k, t0)
+            self.check_inputs(sid, t0, inputs)
+            return
         if not pend or pend[0][0] != t:
             cand = [p for p in pend if p[0] == t]
             if (t,) + zero(T.depth(sid) - 1) in self.Xset[sid] and not cand:
@@ -565,6 +581,11 @@ class Monitor:
                              f"max_loop_iterations={T.max_loop} but run() returned normally",
                              sim=sid)
                     lost = [x for x in lost if x not in exp_loop[sid]]
+                owed = [x for x, n in self.repeat[sid].items() if n > 0]
+                if owed:
+                    self.add("C02", "lost-step",
+                             f"{sid} was not stepped again at {owed[:3]} although an external event "
+                             f"for that (still running) tick was accepted after its step", sim=sid)
                 if lost:
                     self.add("C02", "lost-step", f"{sid} lost demanded step(s) {lost[:3]}", sim=sid)
                     if T.depth(sid) >= 2 and any(c.get("weak") for c in T.conns):
